@@ -229,7 +229,7 @@ Definition zA := A4 [10; 0; 0; 1] 1000.
 Definition zB := A4 [10; 0; 0; 2] 1000.
 Definition zC := A4 [10; 0; 0; 3] 1000.
 Definition ztab : node Z :=
-  mkNode zpfx 8 [1] [1; 2; 3; 4; 5; 6; 7; 19; 20] false []
+  mkNode zpfx 8 [1] [1; 2; 3; 4; 5; 6; 7; 19; 20] [] false []
          [(100, mkRR 200 (mkHop 2 zB (Some 11)) FORWARD false 1); (200, mkRR 100 (mkHop 1 zA (Some 11)) BACKWARD false 1)]
          [(300, mkES 300 (mkHop 3 zC (Some 12)) false)].
 Definition zc : cnode Z :=
